@@ -10,6 +10,8 @@ mod kd6_stored;
 mod kd7_machine;
 mod kd8_quick;
 mod kd10_entry;
+mod kd4_trees;
+mod kd9_window;
 
 // ---------------------------------------------------------------------------------------------
 // typed deflate state (never through `init()`: DESIGN.md §1 R1/R2).  Every buffer is its own local.
